@@ -3,6 +3,7 @@ import os
 from lib import vlib
 
 H = os.path.join(vlib.HARNESS, 'c01_scalar.cpp')
+CONF = os.path.join(vlib.HARNESS, 'c01_conf.cpp')
 
 
 def widths(ctx):
@@ -10,30 +11,50 @@ def widths(ctx):
 
 
 def build(ctx, only_step=None):
-    jobs = [('c01_native', [H, os.path.join(vlib.SRC, 'goldilocks_base_field.cpp')], ctx.flags_native(), ['-lgmp'])]
+    bf = os.path.join(vlib.SRC, 'goldilocks_base_field.cpp')
+    jobs = [('c01_native', [H, bf], ctx.flags_native(), ['-lgmp'])]
+    objs = [('c01_nat.o', [H], ctx.flags_native(extra=['-DC01_AS_LIB', '-DKNS=nat', '-c']), []),
+            ('c01_natbf.o', [bf], ctx.flags_native(extra=['-c']), [])]
     t = ctx.scaled_tree()
     if t:
+        sbf = os.path.join(t, 'goldilocks_base_field.cpp')
         for w in [2, 4, 8]:
             if w == 8 and ctx.tier != 'thorough' and only_step != 'c01_w8':
                 continue
-            jobs.append(('c01_w%d' % w, [H, os.path.join(t, 'goldilocks_base_field.cpp')], ctx.flags_scaled(w, sig=True), ['-lgmp']))
-    if only_step:
+            jobs.append(('c01_w%d' % w, [H, sbf], ctx.flags_scaled(w, sig=True), ['-lgmp']))
+        ren = ['-DGoldilocks=GoldilocksMdl']
+        objs.append(('c01_mdl.o', [H], ctx.flags_scaled(32, sig=True, extra=ren + ['-DC01_AS_LIB', '-DKNS=mdl', '-c']), []))
+        objs.append(('c01_mdlbf.o', [sbf], ctx.flags_scaled(32, sig=True, extra=ren + ['-c']), []))
+    if only_step and only_step != 'c01_conf':
         jobs = [j for j in jobs if j[0] == only_step]
+        objs = []
+    o = ctx.compile_many(objs) if objs else {}
+    if 'c01_mdl.o' in o:
+        jobs.append(('c01_conf', [CONF, o['c01_nat.o'], o['c01_natbf.o'], o['c01_mdl.o'], o['c01_mdlbf.o']], ['-std=c++17', '-O2', '-w', '-fopenmp', '-I' + vlib.COMMON], ['-lgmp']))
     ctx.bins = ctx.compile_many(jobs)
 
 
 def explore(ctx):
     ctx.rule = ('scaled: the repository source recompiled at half-word width w (asm translated from its text) on ALL operand values '
                 'in [0,2^2w) for every op/overload/aliasing form; native: compiled asm on all ordered pairs over the boundary alphabet '
-                'plus closure over non-canonical results. state = (op, operand tuple); transition = one execution of one overload form; '
+                'plus closure over non-canonical results; conformance: asm translation at w=32 == compiled asm bit for bit on alphabet pairs, every small-width path signature matched by a 64-bit run. '
+                'state = (op, operand tuple); transition = one execution of one overload form; '
                 'non-trivial = path signature with at least one carry/borrow correction taken (scaled) or non-canonical raw result (native)')
-    ctx.bounds = {'scaled_widths': widths(ctx), 'native_alphabet': 'A_t (64 half-words squared + extras)' if ctx.tier == 'thorough' else 'A_q (16 half-words squared + extras)',
+    ctx.bounds = {'scaled_widths': widths(ctx), 'native_alphabet': 'A_t (90 half-words squared + extras)' if ctx.tier == 'thorough' else 'A_q (16 half-words squared + extras)',
                   'closure_depth': 2 if ctx.tier == 'thorough' else 1}
     ctx.assumptions = ['width scaling is a small-scope argument: correctness for every input is established for w in the listed widths, '
                        'and at 64 bits on the alphabet/closure/lifted inputs only',
                        'oracle: unsigned __int128 arithmetic modulo p_w']
     ctx.run_step('c01_native', ctx.bins['c01_native'])
+    sigs = []
     for w in widths(ctx):
         n = 'c01_w%d' % w
         if n in ctx.bins:
-            ctx.run_step(n, ctx.bins[n])
+            r = ctx.run_step(n, ctx.bins[n])
+            if r:
+                sigs += [l[len('INFO sig '):] for l in r['_stdout'].split('\n') if l.startswith('INFO sig ')]
+    if 'c01_conf' in ctx.bins:
+        sf = os.path.join(ctx.build_dir, 'sigs.txt')
+        open(sf, 'w').write('\n'.join(sigs) + '\n')
+        ctx.run_step('c01_conf', ctx.bins['c01_conf'], ['--sigfile', sf])
+    ctx.infos = [i for i in ctx.infos if not i.startswith('sig ')][:40]
